@@ -28,6 +28,8 @@ def render_structs(k, it: Item, meta, cfg, strum_path="strum"):
         if std not in dl:
             dl.append(std)
     bounds = meta.get("bounds", "Default + Clone + PartialEq + core::fmt::Debug" if it.tparams else "")
+    if getattr(it, "decl_bounds", None) is not None:
+        bounds = it.decl_bounds        # (G.bound_free_items: the declaration carries NO bound and the enum is instantiated with NoDef)
     src = [render_item(it, dl, bounds=bounds)]
     if (getattr(it, "hostile", None) or (_HOSTILE_ENV if not it.tparams else None)):
         from .defs import hostile_wrap
@@ -42,7 +44,7 @@ def render_structs(k, it: Item, meta, cfg, strum_path="strum"):
         meta["vals"] = vals
     src.append(RR.vals_fn(it, vals))
     arms = {}
-    gen_args = ["'static"] * it.lifetimes + ["u8"] * it.tparams + ["3"] * it.cparams
+    gen_args = ["'static"] * it.lifetimes + [getattr(it, "targ", None) or "u8"] * it.tparams + ["3"] * it.cparams
     iter_ty = it.ident + "Iter" + ("<%s>" % ", ".join(gen_args) if gen_args else "")
 
     if "EnumIter" in derives:
